@@ -92,10 +92,21 @@ func c05Build(c C05Case) (parts []part, cfg h.Config, be *h.Backend, want []stri
 		pay([]byte(c05Second[3:]))
 		cmd("NOOP")
 		want = append(want, "250", "250", "250", "250")
-	case "nomail", "norcpt", "badlast", "overlimit", "overlimit2":
+	case "nomail", "norcpt", "nomail2", "norcpt2", "badlast", "overlimit", "overlimit2":
 		k := len(c.Msg)
+		if strings.HasSuffix(c.State, "2") && c.State != "overlimit2" {
+			// the same refusal in the SECOND transaction of the connection: that the first one had an envelope and was
+			// delivered gives this one neither a sender nor a recipient
+			cmd("MAIL FROM:<ok@a0.example>")
+			cmd("RCPT TO:<ok@b0.example>")
+			g++
+			cmd("BDAT 2 LAST")
+			pay([]byte("zz"))
+			want = append(want, "250", "250", "250")
+			g++
+		}
 		switch c.State {
-		case "norcpt":
+		case "norcpt", "norcpt2":
 			cmd("MAIL FROM:<ok@a.example>")
 			cmd("RCPT TO:<rej@b.example>")
 			want = append(want, "250", "550")
@@ -389,8 +400,13 @@ func evalC05(c C05Case) *h.Finding {
 			return h.F("c05-replies", "%s: the chunk was answered %s but delivered=%t", desc, o.Codes(), delivered)
 		}
 	} else if !(c.State == "overlimit" && len(c.Msg) < 2) && !(c.State == "overlimit2" && len(c.Msg) == 0) { // without a configurable limit below its size the chunk is accepted
+		first := c.State == "nomail2" || c.State == "norcpt2" // these begin with a delivered message "zz"
 		for _, e := range o.Trace {
 			if (e.Kind == "Data" || e.Kind == "LMTPData") && e.ReadErr == "EOF" {
+				if first && string(e.Body) == "zz" {
+					first = false
+					continue
+				}
 				return h.F("c05-refused-but-delivered", "%s: a refused transfer reached the backend as complete: %q", desc, e.Body)
 			}
 		}
@@ -414,7 +430,7 @@ func C05(tier string) int {
 		bytes.Repeat([]byte("a"), lim-1), bytes.Repeat([]byte("b"), lim+1), bytes.Repeat([]byte("c"), 3*lim),
 		append(bytes.Repeat([]byte{0xfe}, lim+1), '\n'), append([]byte("\n"), bytes.Repeat([]byte("d"), lim+1)...),
 	}
-	run.Rule = fmt.Sprintf("messages = all strings of <=%d octets over {CR,LF,'.',NUL,0xFF,'a'} plus %d fixed payloads (CRLF.CRLF, command look-alikes, LF-free runs of line-limit-1, +1, x3 with the line limit set to %d) x every division into <=%d chunks (empty chunks, LAST on empty or non-empty) x segmentation {command/payload in separate segments, pipelined group per segment, everything in one segment, one octet per segment} x {SMTP, LMTP, LMTP per-recipient}; refused BDAT (no MAIL, all RCPT rejected, bad LAST token, over the size limit on the first and on a later chunk) (each followed by a further chunk that would fit: refused as well) and a backend that fails without reading the chunk (two recipients: one reply per BDAT, one per recipient only for LMTP LAST) x payloads (all strings <=%d + fixed) x segmentations; malformed BDAT lines; chunk sizes with leading zeros; chunks of 5000..150000 octets (beyond every internal buffer); BDAT lines with TAB / several spaces between the arguments and a bait chunk (taken or refused, never executed). Every accepted short conversation also with the last octets and io.EOF delivered by ONE Read (n > 0 together with an error, as crypto/tls does for a waiting close_notify). Distinct by construction; non-trivial = payload contains CR, LF, '.', NUL, 0xFF or is longer than the line limit, or the command is refused. every accepted conversation continues with a second two-chunk message (in the 'pipelined group' segmentation under a size limit that each message fits but not both together). Oracle: one Data call per message whose reader yields the concatenation then EOF; exactly the expected reply per command; markers executed once; no payload octet executed.", maxLen, len(fixed), lim, maxParts, refLen)
+	run.Rule = fmt.Sprintf("messages = all strings of <=%d octets over {CR,LF,'.',NUL,0xFF,'a'} plus %d fixed payloads (CRLF.CRLF, command look-alikes, LF-free runs of line-limit-1, +1, x3 with the line limit set to %d) x every division into <=%d chunks (empty chunks, LAST on empty or non-empty) x segmentation {command/payload in separate segments, pipelined group per segment, everything in one segment, one octet per segment} x {SMTP, LMTP, LMTP per-recipient}; refused BDAT (no MAIL, all RCPT rejected - each also as the second transaction behind a delivered one -, bad LAST token, over the size limit on the first and on a later chunk) (each followed by a further chunk that would fit: refused as well) and a backend that fails without reading the chunk (two recipients: one reply per BDAT, one per recipient only for LMTP LAST) x payloads (all strings <=%d + fixed) x segmentations; malformed BDAT lines; chunk sizes with leading zeros; chunks of 5000..150000 octets (beyond every internal buffer); BDAT lines with TAB / several spaces between the arguments and a bait chunk (taken or refused, never executed). Every accepted short conversation also with the last octets and io.EOF delivered by ONE Read (n > 0 together with an error, as crypto/tls does for a waiting close_notify). Distinct by construction; non-trivial = payload contains CR, LF, '.', NUL, 0xFF or is longer than the line limit, or the command is refused. every accepted conversation continues with a second two-chunk message (in the 'pipelined group' segmentation under a size limit that each message fits but not both together). Oracle: one Data call per message whose reader yields the concatenation then EOF; exactly the expected reply per command; markers executed once; no payload octet executed.", maxLen, len(fixed), lim, maxParts, refLen)
 	run.Assumptions = []string{"payload octet classes {CR, LF, '.', NUL, 0xFF, other}", "known finding linelimit-counts-bdat-payload (DESIGN.md D6) is matched by signature AND by an independent simulation of the limiter's sub-space; any other mismatch is a violation"}
 	var cases []C05Case
 	modes := []string{"smtp", "lmtp", "lmtp-rcpt"}
@@ -466,7 +482,7 @@ func C05(tier string) int {
 	var refPayloads [][]byte
 	enumStrings(c05Alphabet, refLen, func(s []byte) { refPayloads = append(refPayloads, append([]byte(nil), s...)) })
 	refPayloads = append(refPayloads, fixed...)
-	for _, st := range []string{"nomail", "norcpt", "badlast", "overlimit", "overlimit2", "earlyfail", "earlyfail-last"} {
+	for _, st := range []string{"nomail", "norcpt", "nomail2", "norcpt2", "badlast", "overlimit", "overlimit2", "earlyfail", "earlyfail-last"} {
 		for _, p := range refPayloads {
 			for _, mode := range modes {
 				for _, seg := range segsAll {
